@@ -36,6 +36,10 @@ fn sample() -> Envelope {
         .add_assertion("t3", "\u{6f22}".repeat(20))
         .add_assertion("t4", format!("ab{}", "\u{6f22}".repeat(20)))
         .add_assertion("t5", format!("a{}", "\u{1f600}".repeat(12)))
+        // function and parameter names come from registries that register_tags() installs in the format
+        // context: this part of the text is one thing before a registration and another after it
+        .add_assertion("expr", bc_envelope::Expression::new(bc_envelope::functions::ADD)
+            .with_parameter(bc_envelope::parameters::LHS, 2).with_parameter(bc_envelope::parameters::RHS, 3))
 }
 
 /// Run one call kind; the returned text is what the property compares.
@@ -75,13 +79,13 @@ fn run_kind(kind: &str) -> String {
         "kv_held_format" => {
             // a caller consults the known-values registry and formats while still holding its guard
             // (after the format context has been initialised by an earlier formatting call)
-            let first = e.format();
+            let _first = e.format();
             let binding = known_values::KNOWN_VALUES.get();
             #[allow(unused_variables)]
             let mark = hooks::ReleaseMark("KV");
             let name = binding.as_ref().unwrap().known_value_named("note").map(|k| k.value()).unwrap_or(0);
             let second = e.format();
-            format!("{}|{}|{}", first == second, name, second)
+            format!("{}|{}", name, second)
         }
         "encode" => hex::encode(e.tagged_cbor().to_cbor_data()),
         "ur" => {
@@ -181,6 +185,8 @@ fn main() {
             let threads: usize = arg(&args, "--threads").and_then(|s| s.parse().ok()).unwrap_or(4);
             let calls: usize = arg(&args, "--calls").and_then(|s| s.parse().ok()).unwrap_or(2);
             let seed: u64 = arg(&args, "--seed").and_then(|s| s.parse().ok()).unwrap_or(1);
+            // the texts each kind returns alone, before and after a registration (from the extraction run)
+            let refs: Arc<Value> = Arc::new(arg(&args, "--ref").and_then(|f| std::fs::read_to_string(f).ok()).and_then(|t| serde_json::from_str(&t).ok()).unwrap_or(Value::Null));
             hooks::enable(true);
             let barrier = Arc::new(Barrier::new(threads));
             // one envelope shared by all threads (the crate is built with its `multithreaded` feature)
@@ -191,6 +197,7 @@ fn main() {
                 let b = barrier.clone();
                 let shared = shared.clone();
                 let shared_ref = shared_ref.clone();
+                let refs = refs.clone();
                 hs.push(std::thread::spawn(move || {
                     let mut rng = StdRng::seed_from_u64(seed.wrapping_mul(7919).wrapping_add(t as u64));
                     let plan: Vec<&str> = (0..calls).map(|_| KINDS[rng.gen_range(0..KINDS.len())]).collect();
@@ -207,7 +214,21 @@ fn main() {
                         res.push(json!({"kind": "shared_envelope", "text": if same { "same" } else { "DIFFERENT" }}));
                     }
                     for k in plan {
+                        // events for spec/LocksTrace.tla: a call that begins after a registration has completed
+                        // must return the text of the registered state
+                        hooks::emit("begin", k);
                         let r = std::panic::catch_unwind(|| run_kind(k));
+                        if k == "register_tags" && r.is_ok() {
+                            hooks::emit("reg_done", "FC");
+                        }
+                        if let Ok(text) = &r {
+                            let (a1, a2) = (refs[k]["text_first"].as_str(), refs[k]["text_registered"].as_str());
+                            let class = if a1.is_none() || a2.is_none() || a1 == a2 { "end_any" }
+                                else if Some(text.as_str()) == a2 { "end_post" }
+                                else if Some(text.as_str()) == a1 { "end_pre" }
+                                else { "end_other" };
+                            hooks::emit(class, k);
+                        }
                         match r {
                             Ok(text) => res.push(json!({"kind": k, "text": text})),
                             Err(p) => {
@@ -236,7 +257,7 @@ fn main() {
             let seed: u64 = arg(&args, "--seed").and_then(|s| s.parse().ok()).unwrap_or(1);
             let out = arg(&args, "--out").unwrap_or_else(|| "stress.json".into());
             let reff = arg(&args, "--ref").expect("--ref programs.json");
-            let refs: Value = serde_json::from_str(&std::fs::read_to_string(reff).expect("ref")).expect("ref json");
+            let refs: Value = serde_json::from_str(&std::fs::read_to_string(&reff).expect("ref")).expect("ref json");
             let mut problems: Vec<Value> = vec![];
             let mut logs: Vec<Value> = vec![];
             let mut calls_done = 0u64;
@@ -244,7 +265,7 @@ fn main() {
                 // vary the number of racing threads 2..=threads
                 let n = 2 + (r % (threads - 1).max(1));
                 let s = seed.wrapping_mul(1_000_003).wrapping_add(r as u64);
-                let a = vec!["stress-child".to_string(), "--threads".into(), n.to_string(), "--calls".into(), calls.to_string(), "--seed".into(), s.to_string()];
+                let a = vec!["stress-child".to_string(), "--threads".into(), n.to_string(), "--calls".into(), calls.to_string(), "--seed".into(), s.to_string(), "--ref".into(), reff.clone()];
                 match spawn_self(&a, Duration::from_secs(20)) {
                     Ok(text) => {
                         let v: Value = serde_json::from_str(text.trim()).expect("child json");
